@@ -404,23 +404,59 @@ def worker(ctx):
         run_case(ctx, L, i)
 
 
+def fuzz_stage(env):
+    """coverage-guided inputs through the same contract checks, compiled into the libFuzzer target (native/parse_run.c)"""
+    import base64
+    from .. import fuzz
+    st = fuzz.run_fuzzer(env.seed, procs=16, runs=1500 if env.quick else 150000, max_len=4096 if env.quick else 16384,
+                         timeout=600 if env.quick else 7200)
+    viols = [dict(t='viol', key=key, detail=detail, case=dict(artifact_b64=base64.b64encode(data).decode())) for key, detail, data in st['findings']]
+    return st, viols
+
+
 def run(env):
+    if getattr(env, 'artifact', None) is not None:
+        # replay of a fuzzer artifact: one process, ASan/UBSan
+        import tempfile
+        from .. import build, fuzz
+        with tempfile.NamedTemporaryFile(dir=os.path.join(fuzz.VERIF, 'build'), delete=True) as f:
+            f.write(env.artifact)
+            f.flush()
+            c = fuzz.classify_artifact(build.build('asanexe'), f.name)
+        viols = []
+        if c:
+            key = c[0] + (':bracket-nesting-over-1000' if fuzz.bracket_depth(env.artifact[8:]) > 1000 else '')
+            viols.append(dict(t='viol', key=key, detail=c[1], case=None))
+        return dict(level='exploration', coverage=dict(evaluations=1, distinct_nontrivial=0, rule='replay of one fuzzer artifact', samples=[]),
+                    violations=viols, inconclusive=[], assumptions=[])
     n = 6000 if env.quick else 150000
     res = env.run_pool(MODULE, dict(inputs=n), nshards=16, case_timeout=150, total_timeout=3000 if env.quick else 60000)
     inconclusive = list(res.inconclusive)
     if res.count('inputs') < n and not res.violations:
         inconclusive.append('only %d of %d inputs ran' % (res.count('inputs'), n))
+    fz = dict(executions=0, coverage_edges=0, features=0, seed_corpus=0, unfinished=0)
+    if env.single is None:
+        fz, fviols = fuzz_stage(env)
+        res.violations.extend(fviols)
+        if fz['unfinished']:
+            inconclusive.append('%d fuzzer processes did not finish in time' % fz['unfinished'])
+        if fz['executions'] == 0:
+            inconclusive.append('the fuzzer executed nothing')
     return dict(
         level='exploration',
         coverage=dict(
-            evaluations=res.count('parses'), distinct_nontrivial=res.count('default_twin_agreed') + res.count('reject_twin_agreed') + res.count('chunk_twin_agreed') + res.count('io_faults_injected'),
-            rule='one evaluation = one cif_parse call (3 to 5 per input: accept-all reference, default handler, n-th error '
-                 'rejected, other chunking / handler, failing read); inputs distinct by per-index PRNG; non-trivial = twin '
-                 'runs whose result and error list agreed with what the contract derives from the reference run',
+            evaluations=res.count('parses') + fz['executions'], distinct_nontrivial=res.count('default_twin_agreed') + res.count('reject_twin_agreed') + res.count('chunk_twin_agreed') + res.count('io_faults_injected'),
+            rule='one evaluation = one cif_parse call of the mutation stage (3 to 5 per input: accept-all reference, default '
+                 'handler, n-th error rejected, other chunking / handler, failing read; inputs distinct by per-index PRNG) or '
+                 'one execution of the libFuzzer target (three parses with the same in-process contract checks); non-trivial = '
+                 'twin runs of the mutation stage whose result and error list agreed with what the contract derives from '
+                 'the reference run',
             samples=res.samples, inputs=res.count('inputs'), errors_reported=res.count('errors_reported'),
             distinct_error_codes=sorted(res.sets.get('error_codes', ()), key=int), result_codes=sorted(res.sets.get('results', ()), key=int),
             seed_kinds=sorted(res.sets.get('seed_kinds', ())), targets=sorted(res.sets.get('targets', ())),
             largest_input_bytes=res.count('largest_input'),
+            fuzzer_executions=fz['executions'], fuzzer_coverage_edges=fz['coverage_edges'], fuzzer_features=fz['features'],
+            fuzzer_seed_corpus=fz['seed_corpus'],
             cifs_exercised_after_parse=res.count('cifs_exercised'), io_faults_injected=res.count('io_faults_injected'),
             io_fault_results=sorted(res.sets.get('io_fault_results', ())), invalid_option_runs=res.count('invalid_option_runs'),
             crashes=res.crashes),
@@ -431,5 +467,10 @@ def run(env):
 
 
 def replay(env, rec):
-    env.single = (rec.get('case') or {}).get('index')
+    case = rec.get('case') or {}
+    if case.get('artifact_b64'):
+        import base64
+        env.artifact = base64.b64decode(case['artifact_b64'])
+        return run(env)
+    env.single = case.get('index')
     return run(env)
